@@ -102,7 +102,7 @@ func generateURLRewriter(arr []string) Rewriter {
 		}
 		k := arr[0]
 		v := arr[1]
-		k = strings.Replace(k, "*", "(\\S*)", -1)
+		k = strings.Replace(k, "*", "(.*)", -1)
 		reg, err := regexp.Compile(k)
 		if err != nil {
 			log.Default().Error("rewrite compile error",
